@@ -1,0 +1,11 @@
+//go:build verif
+
+package example
+
+import "github.com/hneemann/parser2/funcGen"
+
+// VerifBoolParser gives the verification harness access to the bool example configuration.
+func VerifBoolParser() *funcGen.FunctionGenerator[bool] { return boolParser }
+
+// VerifMinimal gives the verification harness access to the float example configuration.
+func VerifMinimal() *funcGen.FunctionGenerator[float64] { return minimal }
